@@ -132,7 +132,18 @@ def check_case(case, ctx=None, only_points=None):
         recs = _records(blob, gz)
         ek, lk, vk = _keys_from_reference(ref)
         all_I = [tuple(r[1]) if len(r[1]) == 3 else (r[1][0], r[1][1], 0) for _, _, r in recs if r[0] == "I"]
-        key_of = {t: (ek.get(t[0]), _lname(lk.get(t[1])), vk.get(t[2])) for t in all_I}
+        # every listed triple (ids are assigned by first appearance), also those whose evaluation fails and is therefore never
+        # recorded: such a triple is legitimately evaluated again by every run
+        eo, lo, vo, listed = {}, {}, {}, []
+        for pos_, (e_, l_, v_) in enumerate(idx):
+            eo.setdefault(e_, len(eo)); lo.setdefault(l_, len(lo))
+            vkey = ("none", pos_) if v_ is None else v_
+            vo.setdefault(vkey, len(vo))
+            if v_ is not None: listed.append((eo[e_], lo[l_], vo[vkey]))
+        listed = list(dict.fromkeys(listed))
+        key_of = {t: (ek.get(t[0]), _lname(lk.get(t[1])), vk.get(t[2])) for t in set(all_I) | set(listed)}
+        key_of = {t: k for t, k in key_of.items() if k[2] is not None}          # evaluators that do not log are not tracked
+        all_I = [t for t in all_I if t in key_of]
         usable_keys = len(set(key_of.values())) == len(key_of) and all(None not in k for k in key_of.values())
         budget = (ctx.plan.get("points", 60) if ctx is not None else 40)
         mp_every = (ctx.plan.get("mp_every", 40) if ctx is not None else 10**9)
@@ -147,7 +158,7 @@ def check_case(case, ctx=None, only_points=None):
                 if os.path.exists(f): os.remove(f)
             with open(path, "wb") as f: f.write(blob[:n])
             recorded = {(tuple(r[1]) if len(r[1]) == 3 else (r[1][0], r[1][1], 0)) for s, e, r in recs if e <= n and r[0] == "I"}
-            pending = [t for t in all_I if t not in recorded]
+            pending = [t for t in listed if t in key_of and t not in recorded]
             use_mp = (pi % mp_every == mp_every - 1)
             cfg = rng.choice([(2, 0, 0), (2, 1, 0), (3, 0, 2)]) if use_mp else (1, 0, rng.choice([0, 0, 2]))
             feat = f"file={'gz' if gz else 'plain'}/point={cls}/resume={'multiproc' if use_mp else 'inproc'}"
@@ -173,10 +184,10 @@ def check_case(case, ctx=None, only_points=None):
             # ---- which triples were evaluated by the resumed run
             if usable_keys:
                 evals = [(e[0], _lname(e[1]), e[2]) for e in X.read_side(side)]
-                rec_keys = {key_of[t] for t in recorded}
+                rec_keys = {key_of[t] for t in recorded if t in key_of}
                 # the record being written at the crash point may or may not count as recorded (its text can be complete
                 # while the newline / gzip trailer is missing): it may be evaluated zero or one time
-                maybe = {key_of[tuple(r[1]) if len(r[1]) == 3 else (r[1][0], r[1][1], 0)] for s_, e_, r in recs if s_ < n < e_ and r[0] == "I"}
+                maybe = {key_of.get(tuple(r[1]) if len(r[1]) == 3 else (r[1][0], r[1][1], 0)) for s_, e_, r in recs if s_ < n < e_ and r[0] == "I"} - {None}
                 note("oracle.no-recorded-triple-reevaluated")
                 again = [k for k in evals if k in rec_keys]
                 if again: viol.append((f"resume/recorded-triple-evaluated-again/{feat}", f"prefix {n}: triples {again[:3]} are recorded in the file but were evaluated again")); continue
